@@ -236,4 +236,24 @@ theorem unmarshal_marshal (s : Signal) (h : WF s) : unmarshal (marshal s) = some
     rw [decode_marshalIce x hxu (by omega)]
     simp only [merge_iceFields x hxu]
 
+/-! ### peer ID text -/
+
+open Bifrost.Codec in
+/-- A text that parses as a peer ID parses back from the canonical text of that ID. -/
+theorem idB58Decode_canonical (s id : Bytes) (h : idB58Decode s = some id) :
+    id ≠ [] ∧ idB58Decode (idB58Encode id) = some id := by
+  unfold idB58Decode at h
+  cases hd : B58.decode s with
+  | none => simp [hd] at h
+  | some m =>
+    simp only [hd] at h
+    obtain ⟨he, r, hr⟩ := idFromBytes_some m id h
+    subst he
+    have hne := decodeMultihash_ne_nil id r hr
+    refine ⟨hne, ?_⟩
+    unfold idB58Decode idB58Encode
+    rw [B58.decode_encode id hne]
+    exact h
+
+
 end Bifrost.Signal
